@@ -30,6 +30,8 @@ CLAIMS = {
             note="Code points are class representatives; deep-nesting stack overflows are unrepaired genuine defects listed in known_findings.json; generator-vs-parser verdict differences are drift only (C07 does not demand grammar equality)."),
  "C32": dict(engine="isogrammar", design="3/C32", text="For every TLC-generated sentence (and the parser fixtures) and every character-boundary offset, the real position resolution is run and its node chain recorded together with an independent walk of all resolvable nodes; TLC checks that each chain span contains the offset and its child, that consecutive entries are child/parent, and that no resolvable descendant of the returned node contains the offset.",
             note="Two explicit readings are counted as drift, not violations: the root declaration stands for the whole literal (keyword/blank offsets resolve to it), and type annotations are atomic. The AST walk of the harness is trusted base."),
+ "C28": dict(engine="swc", design="3/C28", text="TLC enumerates iso literal headers from the grammar (layout schemes with odd white space incl. BOM/CR/FF, directives with and without spaces, names that start with or contain the keywords) x file placements relative to the artifact directory x both module kinds x call shapes; the expected classification is the real parser's verdict on the same text and the expected import is path arithmetic over segment sequences (SwcPath.tla); each case runs through the real compile_iso_literal_visitor and the printed module is projected (what replaced the call, which import was added, whether every other item is unchanged); TLC judges every record.",
+            note="The real parser is the reference for classification; swc_ecma_codegen printing is the equality of 'other code'; Windows separators, files inside __isograph and template literals with substitutions are outside the model."),
 }
 
 checks = []
